@@ -407,6 +407,7 @@ TABLE_FORMULAS = ORDER_FORMULAS + [
     "position_of_queen_one & -position_of_queen_two | short", "a_very_long_variable_name_indeed ^ a_very_long_variable_name_in_fact",
     "(a | -b) & c", "(a & -b) | c", "(forall q # q | p) & -r", "exists x # (x & (y | z))", "nu X # ((mu X # (X | a)) & X)",
     "exists x # ((forall x # (x | a)) & x)", "[a, b] < 0", "[a] <= 18446744073709551615", "a <= b <= c", "if b then a & c else c",
+    "lfp X # ([a] <= [X, b])", "mu X # (a | ([b] <= [X]))", "gfp X # ([X, a] >= [b])",
 ]
 
 
